@@ -171,4 +171,245 @@ theorem rq_rel (spec : Format) (M : Nat) (hM : M ≠ 0) (e : Int) (he : spec.min
     rw [rq_exact spec M e (by omega), sub_self, abs_zero]
     exact hV
 
+/-! ### from an absolute to a relative error -/
+
+/-- `|r − V| ≤ V · u` with `V > 0` is `r = V · (1 + δ)`, `|δ| ≤ u`. -/
+theorem rel_of_abs (r V u : ℚ) (hV : 0 < V) (h : |r - V| ≤ V * u) : ∃ δ : ℚ, |δ| ≤ u ∧ r = V * (1 + δ) := by
+  refine ⟨(r - V) / V, ?_, by field_simp; ring⟩
+  rw [abs_div, abs_of_pos hV, div_le_iff₀ hV, mul_comm]
+  exact h
+
+/-! ### `normalize` and `add` -/
+
+theorem sgnQ_apply (s : Sign) (n : Nat) : ((s.apply (n : Int) : Int) : ℚ) = sgnQ s * (n : ℚ) := by
+  cases s <;> simp [Sign.apply, sgnQ]
+
+/-- the value of a finite float read on a finer grid `2^E`, `E ≤ e` (the alignment step of `add`). -/
+theorem uval_fin_grid (s : Sign) (m : Nat) (e : Int) (hm : 0 < m) (E : Int) (hE : E ≤ e) :
+    uval (.finite s m e hm) = ((s.apply ((m * 2 ^ (e - E).toNat : Nat) : Int) : Int) : ℚ) * (2 : ℚ) ^ E := by
+  have h2 : (2 : ℚ) ^ e = (2 : ℚ) ^ E * (2 : ℚ) ^ (e - E).toNat := by
+    rw [← zpow_natCast, ← zpow_add₀ (two_ne_zero)]; congr 1; omega
+  rw [sgnQ_apply]
+  simp only [uval]
+  rw [h2]; push_cast; ring
+
+/-- **`normalize` (the rounding of `add` / `sub`) has relative error `2^(−p)`** on every grid `2^e` with
+`minExponent ≤ e`, whatever the sign of the exact value `Z · 2^e`; the result is a zero or finite. -/
+theorem uval_normalize (spec : Format) (Z : Int) (e : Int) (zs : Sign) (he : spec.minExponent ≤ e) :
+    (normalize spec Z e zs).isFinite = true ∧
+    ∃ δ : ℚ, |δ| ≤ (2 : ℚ) ^ (-(spec.mantissaBits : Int)) ∧
+      uval (normalize spec Z e zs) = (Z : ℚ) * (2 : ℚ) ^ e * (1 + δ) := by
+  have hu : (0 : ℚ) ≤ (2 : ℚ) ^ (-(spec.mantissaBits : Int)) := (two_zpow_pos _).le
+  have hfin : ∀ (s : Sign) (M : Nat), M ≠ 0 → (round spec s M e).isFinite = true := by
+    intro s M hM
+    rcases round_zeroOrFin spec s M hM e with h | ⟨m', e', p', h⟩ <;> rw [h] <;> rfl
+  rcases lt_trichotomy Z 0 with h | h | h
+  · have hM : (-Z).toNat ≠ 0 := by omega
+    rw [normalize_neg _ _ _ _ h]
+    refine ⟨hfin _ _ hM, ?_⟩
+    have hc : (((-Z).toNat : Nat) : ℚ) = -(Z : ℚ) := by
+      have h' : (((-Z).toNat : Nat) : Int) = -Z := Int.toNat_of_nonneg (by omega)
+      rw [← Int.cast_natCast, h', Int.cast_neg]
+    have hV : (0 : ℚ) < (((-Z).toNat : Nat) : ℚ) * (2 : ℚ) ^ e :=
+      mul_pos (by exact_mod_cast Nat.pos_of_ne_zero hM) (two_zpow_pos e)
+    obtain ⟨δ, hδ, hr⟩ := rel_of_abs _ _ _ hV (rq_rel spec _ hM e he)
+    refine ⟨δ, hδ, ?_⟩
+    rw [uval_round spec _ _ hM, hr, hc]
+    simp only [sgnQ]; ring
+  · subst h
+    rw [normalize_zero]
+    exact ⟨rfl, 0, by rw [abs_zero]; exact hu, by simp [uval]⟩
+  · have hM : Z.toNat ≠ 0 := by omega
+    rw [normalize_pos _ _ _ _ h]
+    refine ⟨hfin _ _ hM, ?_⟩
+    have hc : ((Z.toNat : Nat) : ℚ) = (Z : ℚ) := by
+      have h' : ((Z.toNat : Nat) : Int) = Z := Int.toNat_of_nonneg (by omega)
+      rw [← Int.cast_natCast, h']
+    have hV : (0 : ℚ) < ((Z.toNat : Nat) : ℚ) * (2 : ℚ) ^ e :=
+      mul_pos (by exact_mod_cast Nat.pos_of_ne_zero hM) (two_zpow_pos e)
+    obtain ⟨δ, hδ, hr⟩ := rel_of_abs _ _ _ hV (rq_rel spec _ hM e he)
+    refine ⟨δ, hδ, ?_⟩
+    rw [uval_round spec _ _ hM, hr, hc]
+    simp only [sgnQ]; ring
+
+/-- **the standard model of floating-point addition, every format** (unpacked level, before `pack`): for canonical
+finite operands the sum is a zero or finite and its value is `(a + b) · (1 + δ)` with `|δ| ≤ 2^(−p)` — all sign
+combinations, zeros, subnormals (no underflow error), cancellation. -/
+theorem add_err_unpacked (spec : Format) (a b : UnpackedFloat) (ha : Canon spec a) (hb : Canon spec b)
+    (fa : a.isFinite = true) (fb : b.isFinite = true) :
+    (UnpackedFloat.add spec a b).isFinite = true ∧
+    ∃ δ : ℚ, |δ| ≤ (2 : ℚ) ^ (-(spec.mantissaBits : Int)) ∧
+      uval (UnpackedFloat.add spec a b) = (uval a + uval b) * (1 + δ) := by
+  have hu : (0 : ℚ) ≤ (2 : ℚ) ^ (-(spec.mantissaBits : Int)) := (two_zpow_pos _).le
+  match a, b, ha, hb, fa, fb with
+  | .zero s, .zero s', _, _, _, _ =>
+    have hz : ∃ s'', UnpackedFloat.add spec (.zero s) (.zero s') = .zero s'' := by
+      cases s <;> cases s' <;> exact ⟨_, rfl⟩
+    obtain ⟨s'', hz⟩ := hz
+    rw [hz]
+    exact ⟨rfl, 0, by rw [abs_zero]; exact hu, by simp [uval]⟩
+  | .zero s, .finite s' m e hm, _, _, _, _ =>
+    exact ⟨rfl, 0, by rw [abs_zero]; exact hu, by simp [uval, UnpackedFloat.add]⟩
+  | .finite s m e hm, .zero s', _, _, _, _ =>
+    exact ⟨rfl, 0, by rw [abs_zero]; exact hu, by simp [uval, UnpackedFloat.add]⟩
+  | .finite s₁ m₁ e₁ h₁, .finite s₂ m₂ e₂ h₂, ha, hb, _, _ =>
+    have hga : spec.minExponent ≤ e₁ := CanonFin.ge ha
+    have hgb : spec.minExponent ≤ e₂ := CanonFin.ge hb
+    rw [add_fin]
+    obtain ⟨hf, δ, hδ, hv⟩ := uval_normalize spec
+      (s₁.apply ((m₁ * 2 ^ (e₁ - min e₁ e₂).toNat : Nat) : Int) + s₂.apply ((m₂ * 2 ^ (e₂ - min e₁ e₂).toNat : Nat) : Int))
+      (min e₁ e₂) .positive (by omega)
+    refine ⟨hf, δ, hδ, ?_⟩
+    rw [hv, uval_fin_grid s₁ m₁ e₁ h₁ (min e₁ e₂) (by omega), uval_fin_grid s₂ m₂ e₂ h₂ (min e₁ e₂) (by omega)]
+    push_cast; ring
+
+/-! ### `Float` (binary64) -/
+
+/-- **the exact value of a double** (`± m · 2^e`; `0` for `±0`, and by convention for `±∞` / NaN). -/
+def toRat (x : Float) : ℚ := uval x.toModel.unpack
+
+theorem isFinite_iff (x : Float) : x.isFinite = true ↔ x.toModel.unpack.isFinite = true := Iff.rfl
+
+theorem toRat_of_unpack {x : Float} {s : Sign} {m : Nat} {e : Int} {hm : 0 < m}
+    (h : x.toModel.unpack = .finite s m e hm) : toRat x = sgnQ s * (m : ℚ) * (2 : ℚ) ^ e := by
+  unfold toRat; rw [h]; rfl
+
+theorem toRat_zero : toRat (0 : Float) = 0 := rfl
+
+/-- **the standard model of floating-point addition for doubles**: if `a`, `b` are finite and `a + b` does not
+overflow, then `a + b = (a + b)_exact · (1 + δ)` with `|δ| ≤ 2⁻⁵³` (unit roundoff of binary64, round to nearest-even;
+addition has no underflow error). -/
+theorem add_err_float (a b : Float) (ha : a.isFinite = true) (hb : b.isFinite = true)
+    (hab : (a + b).isFinite = true) :
+    ∃ δ : ℚ, |δ| ≤ (2 : ℚ) ^ (-53 : Int) ∧ toRat (a + b) = (toRat a + toRat b) * (1 + δ) := by
+  have hab' : (a + b).toModel.unpack.isFinite = true := hab
+  have hc := add_canon Format.binary64 _ _ (float_canon a) (float_canon b)
+  obtain ⟨_, δ, hδ, hv⟩ := add_err_unpacked Format.binary64 _ _ (float_canon a) (float_canon b) ha hb
+  refine ⟨δ, hδ, ?_⟩
+  unfold toRat
+  rw [float_add_unpack] at hab' ⊢
+  rcases repack_cases Format.binary64 (by decide) _ hc with ⟨h1, _⟩ | ⟨s, m, e, p, _, _, h1⟩
+  · rw [h1]; exact hv
+  · rw [h1] at hab'; cases hab'
+
+/-- the same as an absolute bound: `|fl(a + b) − (a + b)| ≤ 2⁻⁵³ · |a + b|`. -/
+theorem add_err_abs_float (a b : Float) (ha : a.isFinite = true) (hb : b.isFinite = true)
+    (hab : (a + b).isFinite = true) :
+    |toRat (a + b) - (toRat a + toRat b)| ≤ (2 : ℚ) ^ (-53 : Int) * |toRat a + toRat b| := by
+  obtain ⟨δ, hδ, hv⟩ := add_err_float a b ha hb hab
+  have : toRat (a + b) - (toRat a + toRat b) = δ * (toRat a + toRat b) := by rw [hv]; ring
+  rw [this, abs_mul]
+  exact mul_le_mul_of_nonneg_right hδ (abs_nonneg _)
+
+/-- a double that is `> 0` in the IEEE order and finite has a positive value. -/
+theorem toRat_pos (x : Float) (h : Scalar.lt (0 : Float) x = true) (hf : x.isFinite = true) : 0 < toRat x := by
+  have hf' : x.toModel.unpack.isFinite = true := hf
+  rw [FMO.lt_float, float_zero_unpack] at h
+  rcases pos_cases _ h with ⟨m, e, hm, hx⟩ | hx
+  · rw [toRat_of_unpack hx]
+    simp only [sgnQ, one_mul]
+    exact mul_pos (by exact_mod_cast hm) (two_zpow_pos e)
+  · rw [hx] at hf'; cases hf'
+
+/-! ### monotonicity of the value -/
+
+theorem valLE_rat {m₁ m₂ : Nat} {e₁ e₂ : Int} (h : ValLE m₁ e₁ m₂ e₂) :
+    (m₁ : ℚ) * (2 : ℚ) ^ e₁ ≤ (m₂ : ℚ) * (2 : ℚ) ^ e₂ := by
+  unfold ValLE at h
+  have h1 : (2 : ℚ) ^ e₁ = (2 : ℚ) ^ (min e₁ e₂) * (2 : ℚ) ^ (e₁ - min e₁ e₂).toNat := by
+    rw [← zpow_natCast, ← zpow_add₀ (two_ne_zero)]; congr 1; omega
+  have h2 : (2 : ℚ) ^ e₂ = (2 : ℚ) ^ (min e₁ e₂) * (2 : ℚ) ^ (e₂ - min e₁ e₂).toNat := by
+    rw [← zpow_natCast, ← zpow_add₀ (two_ne_zero)]; congr 1; omega
+  have hc : ((m₁ : ℚ) * (2 : ℚ) ^ (e₁ - min e₁ e₂).toNat) ≤ (m₂ : ℚ) * (2 : ℚ) ^ (e₂ - min e₁ e₂).toNat := by
+    exact_mod_cast h
+  have hP := two_zpow_pos (min e₁ e₂)
+  rw [h1, h2]
+  calc (m₁ : ℚ) * ((2 : ℚ) ^ (min e₁ e₂) * (2 : ℚ) ^ (e₁ - min e₁ e₂).toNat)
+      = ((m₁ : ℚ) * (2 : ℚ) ^ (e₁ - min e₁ e₂).toNat) * (2 : ℚ) ^ (min e₁ e₂) := by ring
+    _ ≤ ((m₂ : ℚ) * (2 : ℚ) ^ (e₂ - min e₁ e₂).toNat) * (2 : ℚ) ^ (min e₁ e₂) :=
+        mul_le_mul_of_nonneg_right hc hP.le
+    _ = _ := by ring
+
+theorem uval_fin_pos (m : Nat) (e : Int) (hm : 0 < m) : 0 < uval (.finite .positive m e hm) := by
+  simp only [uval, sgnQ, one_mul]
+  exact mul_pos (by exact_mod_cast hm) (two_zpow_pos e)
+
+theorem uval_fin_neg (m : Nat) (e : Int) (hm : 0 < m) : uval (.finite .negative m e hm) < 0 := by
+  have := uval_fin_pos m e hm
+  simp only [uval, sgnQ, one_mul] at this ⊢
+  linarith
+
+/-- **the IEEE order on canonical finite floats is the order of their values.** -/
+theorem uval_le_of_le (spec : Format) (a b : UnpackedFloat) (ha : Canon spec a) (hb : Canon spec b)
+    (fa : a.isFinite = true) (fb : b.isFinite = true) (h : a.le b = true) : uval a ≤ uval b := by
+  match a, b, ha, hb, fa, fb, h with
+  | .zero _, .zero _, _, _, _, _, _ => exact le_refl _
+  | .zero _, .finite .positive m e hm, _, _, _, _, _ => exact (uval_fin_pos m e hm).le
+  | .finite .negative m e hm, .zero _, _, _, _, _, _ => exact (uval_fin_neg m e hm).le
+  | .finite .negative m e hm, .finite .positive m' e' hm', _, _, _, _, _ =>
+    exact le_trans (uval_fin_neg m e hm).le (uval_fin_pos m' e' hm').le
+  | .finite .positive m e hm, .finite .positive m' e' hm', ha, hb, _, _, h =>
+    have := valLE_rat ((le_fin_pos_iff_valLE hm hm' ha hb).mp h)
+    simp only [uval, sgnQ, one_mul]; exact this
+  | .finite .negative m e hm, .finite .negative m' e' hm', ha, hb, _, _, h =>
+    have := valLE_rat ((le_fin_neg_iff_valLE hm hm' ha hb).mp h)
+    simp only [uval, sgnQ]; linarith
+
+/-- **monotonicity of `toRat`**: IEEE `<=` between finite doubles is `≤` of the exact values. -/
+theorem toRat_le_of_le (x y : Float) (hx : x.isFinite = true) (hy : y.isFinite = true)
+    (h : Scalar.le x y = true) : toRat x ≤ toRat y := by
+  rw [FMO.le_float] at h
+  exact uval_le_of_le Format.binary64 _ _ (float_canon x) (float_canon y) hx hy h
+
+theorem toRat_nonneg (x : Float) (h : Scalar.le (0 : Float) x = true) (hf : x.isFinite = true) : 0 ≤ toRat x :=
+  toRat_le_of_le 0 x rfl hf h
+
+/-! ### elementary estimates of `(1 ± u)^n` -/
+
+/-- Bernoulli: `1 + n·x ≤ (1 + x)^n` for `x ≥ −1`. -/
+theorem bernoulli (x : ℚ) (hx : -1 ≤ x) (n : Nat) : 1 + (n : ℚ) * x ≤ (1 + x) ^ n := by
+  induction n with
+  | zero => simp
+  | succ n ih =>
+    rw [pow_succ]
+    have h1 : (0 : ℚ) ≤ 1 + x := by linarith
+    have h2 : (0 : ℚ) ≤ (n : ℚ) * (x * x) := mul_nonneg (Nat.cast_nonneg n) (mul_self_nonneg x)
+    calc 1 + ((n + 1 : Nat) : ℚ) * x ≤ (1 + (n : ℚ) * x) * (1 + x) := by push_cast; nlinarith
+      _ ≤ (1 + x) ^ n * (1 + x) := mul_le_mul_of_nonneg_right ih h1
+
+/-- `(1 + u)^n + (1 − u)^n ≥ 2` for `0 ≤ u ≤ 1`: the lower deviation `1 − (1 − u)^n` is at most the upper one. -/
+theorem pow_sum_ge_two (u : ℚ) (h0 : 0 ≤ u) (h1 : u ≤ 1) (n : Nat) : 2 ≤ (1 + u) ^ n + (1 - u) ^ n := by
+  have a := bernoulli u (by linarith) n
+  have b := bernoulli (-u) (by linarith) n
+  have : (1 : ℚ) + -u = 1 - u := by ring
+  rw [this] at b
+  linarith
+
+/-- `(1 + u)^n ≤ 1 + 2·n·u` as long as `n·u ≤ 1`. -/
+theorem one_add_pow_le (u : ℚ) (h0 : 0 ≤ u) (n : Nat) (hn : (n : ℚ) * u ≤ 1) :
+    (1 + u) ^ n ≤ 1 + 2 * (n : ℚ) * u := by
+  suffices h : ∀ k : Nat, (k : ℚ) * u ≤ 1 → (1 + u) ^ k ≤ 1 + (k : ℚ) * u + ((k : ℚ) * u) ^ 2 by
+    have := h n hn
+    have h2 : ((n : ℚ) * u) ^ 2 ≤ (n : ℚ) * u := by
+      have hnn : (0 : ℚ) ≤ (n : ℚ) * u := mul_nonneg (Nat.cast_nonneg n) h0
+      nlinarith
+    linarith
+  intro k
+  induction k with
+  | zero => intro _; simp
+  | succ k ih =>
+    intro hk
+    have hk0 : (0 : ℚ) ≤ (k : ℚ) := Nat.cast_nonneg k
+    have hku : (k : ℚ) * u ≤ 1 := by push_cast at hk; nlinarith
+    have ih' := ih hku
+    have h1 : (0 : ℚ) ≤ 1 + u := by linarith
+    rw [pow_succ]
+    calc (1 + u) ^ k * (1 + u) ≤ (1 + (k : ℚ) * u + ((k : ℚ) * u) ^ 2) * (1 + u) :=
+          mul_le_mul_of_nonneg_right ih' h1
+      _ ≤ 1 + ((k + 1 : Nat) : ℚ) * u + (((k + 1 : Nat) : ℚ) * u) ^ 2 := by
+          push_cast
+          have hkk : (k : ℚ) * ((k : ℚ) * u) ≤ (k : ℚ) * 1 := mul_le_mul_of_nonneg_left hku hk0
+          have hu2 : (0 : ℚ) ≤ u * u := mul_self_nonneg u
+          nlinarith [mul_nonneg hu2 (sub_nonneg.mpr hkk), mul_nonneg hu2 hk0]
+
 end Rosu.FErr
